@@ -279,15 +279,27 @@ def _check_before_write(ctx, mod):
             return [N.txt(a) for a in expr.right.elts] == want
         return False
     accountings = {}
+    excluded = {}
+    listing = set()
+    cap_graph = ctx.cfg(cap)
     for call in K.calls(cap.node):
         if isinstance(call.func, ast.Name) and call.func.id in (
                 '_calc_free', '_calc_free_traits') and len(call.args) == 3:
             accountings[call.func.id] = call
-    listing = set(K.rtxt(cap, c.args[1]) for c in accountings.values())
+            excluded[call.func.id] = excluded_ok(call.args[2])
+            listing.add(K.rtxt(cap, call.args[1]))
+        elif isinstance(call.func, ast.Name) and call.func.id in (
+                '_calc_free', '_calc_free_traits') and len(call.args) == 2:
+            # the exclusion made once by the caller, on the listing itself
+            accountings[call.func.id] = call
+            okc, _shown, source = _caller_excludes(
+                ctx, cap, cap_graph, call.func.id, excluded_ok)
+            excluded[call.func.id] = okc
+            listing.add(source)
     ctx.ob('C19.3', cap, None,
            set(accountings) == {'_calc_free', '_calc_free_traits'} and
-           all(excluded_ok(c.args[2]) for c in accountings.values()) and
-           len(listing) == 1 and '.list(' in list(listing)[0],
+           all(excluded.values()) and
+           len(listing) == 1 and '.list(' in (list(listing)[0] or ''),
            "the reservation being replaced ('<allocation>/<cell>') is "
            'excluded in both accountings', construct='excluded id')
     # the reservations accounted are those of the request's own cell AND
@@ -402,6 +414,7 @@ def _check_before_write(ctx, mod):
                'the partition record is read from the admin store at every '
                'request (nothing is kept between requests)',
                construct='partition record read afresh')
+    _listing_is_collection(ctx, cap, cgraph)
     for fname in ('_calc_free', '_calc_free_traits'):
         func = mod.functions[fname]
         nz = N.Normaliser()
@@ -423,6 +436,16 @@ def _check_before_write(ctx, mod):
                 isinstance(n.ast.value.op, ast.Sub) and
                 N.txt(n.ast.value.left) == N.txt(n.ast.targets[0])))]
         # <loop variable>['_id'] != <third parameter>
+        if len(func.params()) < 3:
+            # the exclusion may be made once, by the caller, on the listing
+            # it hands to the accounting
+            okc, shownc, _src = _caller_excludes(ctx, cap, cgraph, fname)
+            ctx.ob('C19.3', func, subs[0] if subs else None,
+                   bool(subs) and okc,
+                   '%s is handed a listing without the reservation whose '
+                   '_id is old_id (%s)' % (fname, shownc),
+                   construct='%s excludes old_id' % fname)
+            continue
         oldp = func.params()[2]
         ok = bool(subs)
         for n in subs:
@@ -446,6 +469,129 @@ def _check_before_write(ctx, mod):
                "%s skips the reservation whose _id is old_id" % fname,
                construct='%s excludes old_id' % fname)
     return handlers, cap
+
+
+_ONE_SHOT = ('filter', 'map', 'iter', 'zip', 'reversed', 'enumerate')
+
+
+def _one_shot(val):
+    """A value that can be walked once: a generator expression or the
+    result of a lazy builtin / itertools function."""
+    if isinstance(val, ast.GeneratorExp):
+        return True
+    if isinstance(val, ast.Call):
+        name = N.txt(val.func)
+        if name in _ONE_SHOT or name.startswith('itertools.') or \
+                name.startswith('six.moves.filter') or \
+                name.startswith('six.moves.map'):
+            return True
+    return False
+
+
+def _listing_assigns(cap, name):
+    return [sub for sub in K.walk_no_nested(cap.node)
+            if isinstance(sub, ast.Assign) and len(sub.targets) == 1 and
+            isinstance(sub.targets[0], ast.Name) and
+            sub.targets[0].id == name]
+
+
+def _accounting_calls(cap):
+    return [c for c in K.calls(cap.node) if isinstance(c.func, ast.Name) and
+            c.func.id in ('_calc_free', '_calc_free_traits') and
+            len(c.args) >= 2]
+
+
+def _listing_is_collection(ctx, cap, cgraph):
+    """C19.3: the overall accounting and the per-trait accounting walk the
+    same listing one after the other, so what they are handed is a
+    collection - a filter object or a generator is empty for the second
+    walk, and the per-trait limits would be checked against nobody."""
+    calls = _accounting_calls(cap)
+    names = set(c.args[1].id for c in calls
+                if isinstance(c.args[1], ast.Name))
+    for call in calls:
+        arg = call.args[1]
+        vals = [arg]
+        if isinstance(arg, ast.Name):
+            vals = [a.value for a in _listing_assigns(cap, arg.id)]
+        lazy = [v for v in vals if _one_shot(v)]
+        shared = not isinstance(arg, ast.Name) or sum(
+            1 for c in calls if isinstance(c.args[1], ast.Name) and
+            c.args[1].id == arg.id) > 1
+        ctx.ob('C19.3', cap, call, not (lazy and shared),
+               'the listing handed to %s is a collection (it is walked by '
+               'both accountings)' % call.func.id if not (lazy and shared)
+               else 'the listing handed to %s can be walked once only (%s) '
+               'and both accountings walk it: the second one sees no other '
+               'reservation' % (call.func.id, N.txt(lazy[0])[:70]),
+               construct='%s listing is a collection' % call.func.id)
+    return names
+
+
+def _caller_excludes(ctx, cap, cgraph, fname, id_ok=None):
+    """The listing passed to ``fname`` was filtered on
+    <element>['_id'] != <old id> by an assignment that dominates the call.
+    Returns (ok, shown, text of the unfiltered source)."""
+    for call in _accounting_calls(cap):
+        if call.func.id != fname:
+            continue
+        arg = call.args[1]
+        if not isinstance(arg, ast.Name):
+            return False, N.txt(arg)[:60], None
+        site = [n for n in cgraph.nodes if call in C.node_calls(n)]
+        good = None
+        source = None
+        assigns = _listing_assigns(cap, arg.id)
+        for asg in assigns:
+            val = asg.value
+            while isinstance(val, ast.Call) and N.txt(val.func) in (
+                    'list', 'tuple', 'sorted') and val.args:
+                val = val.args[0]
+            conds = []
+            src = None
+            if isinstance(val, (ast.ListComp, ast.GeneratorExp)) and \
+                    len(val.generators) == 1:
+                conds = val.generators[0].ifs
+                src = val.generators[0].iter
+            elif isinstance(val, ast.Call) and N.txt(val.func) == 'filter' \
+                    and len(val.args) == 2 and \
+                    isinstance(val.args[0], ast.Lambda):
+                conds = [val.args[0].body]
+                src = val.args[1]
+            if len(conds) != 1:
+                continue
+            cond = conds[0]
+            if not (isinstance(cond, ast.Compare) and len(cond.ops) == 1 and
+                    isinstance(cond.ops[0], ast.NotEq)):
+                continue
+            sides = [cond.left, cond.comparators[0]]
+            ids = [e for e in sides if not N.txt(e).endswith("['_id']")]
+            if len(ids) != 1:
+                continue
+            if id_ok is not None:
+                idok = id_ok(ids[0])
+            else:
+                txt = K.rtxt(cap, ids[0])
+                idok = '.format(' in txt or '%' in txt
+            if not idok:
+                continue
+            node = [n for n in cgraph.nodes if n.ast is asg]
+            if node and site and K.find_path(
+                    cgraph.entry, site, cut_node=lambda n: n in node,
+                    follow_exc=False) is None:
+                good = asg
+                if isinstance(src, ast.Name) and src.id == arg.id:
+                    # the name is re-bound: its other binding is the source
+                    others = [a for a in assigns if a is not asg]
+                    source = N.txt(others[0].value) if len(
+                        others) == 1 else None
+                else:
+                    source = K.rtxt(cap, src)
+        if good is None:
+            return False, 'no filtering assignment of %s dominates the ' \
+                'call' % arg.id, None
+        return True, N.txt(good.value)[:70], source
+    return False, 'no call', None
 
 
 def _schema_required(ctx, func):
